@@ -315,6 +315,85 @@ func seqHistory(r *ev.Run, id string, i int) {
 	}
 }
 
+// ---- several syncers side by side ---------------------------------------------------------------
+
+// sideBySide runs 2-3 syncers of equal size (the default size among them) in one interleaved history of
+// Write, Sync and Stop, writes after Stop included: each sink must receive exactly its own syncer's
+// accepted bytes, whatever the others do and whichever of them was stopped or created in between.
+func sideBySide(r *ev.Run, id string, i int) {
+	g := rng.For(r.Seed, "c12/side", i)
+	size := rng.Pick(g, []int{0, 0, 64, 4096})
+	k := g.Range(2, 3)
+	type one struct {
+		b       *zapcore.BufferedWriteSyncer
+		sink    *rec.Sink
+		want    []byte
+		created bool
+	}
+	all := make([]*one, k)
+	clk := &hclock{}
+	for j := range all {
+		all[j] = &one{sink: &rec.Sink{Name: fmt.Sprint(j)}}
+	}
+	var trace []string
+	defer func() {
+		for _, o := range all {
+			if o.created {
+				_ = o.b.Stop()
+			}
+		}
+	}()
+	fail := func(msg string) {
+		r.Violate(ev.Violation{Case: id, Class: "bws-cross-talk", Msg: fmt.Sprintf("Size=%d, %d syncers side by side: %s", size, k, msg), Witness: map[string]any{"size": size, "ops": trace}})
+	}
+	for step, nops := 0, g.Range(6, 40); step < nops; step++ {
+		j := g.Intn(k)
+		o := all[j]
+		if !o.created {
+			// syncers come into being at different moments of the history
+			o.b = &zapcore.BufferedWriteSyncer{WS: o.sink, Size: size, FlushInterval: time.Hour, Clock: clk}
+			o.created = true
+		}
+		switch g.Intn(6) {
+		case 0, 1, 2:
+			p := []byte(fmt.Sprintf("<syncer %d step %d %s>\n", j, step, strings.Repeat(string(rune('a'+j)), g.Intn(40))))
+			trace = append(trace, fmt.Sprintf("syncer%d.Write(%d bytes)", j, len(p)))
+			if n, err := o.b.Write(p); n != len(p) || err != nil {
+				fail(fmt.Sprintf("syncer %d: Write returned (%d, %v)", j, n, err))
+				return
+			}
+			o.want = append(o.want, p...)
+		case 3, 4:
+			trace = append(trace, fmt.Sprintf("syncer%d.Sync", j))
+			if err := o.b.Sync(); err != nil {
+				fail(fmt.Sprintf("syncer %d: Sync returned %v", j, err))
+				return
+			}
+			if got := o.sink.All(); !bytes.Equal(got, o.want) {
+				fail(fmt.Sprintf("after Sync the sink of syncer %d holds %d bytes, want its own %d accepted bytes; sink ends %q", j, len(got), len(o.want), tailB(got, 80)))
+				return
+			}
+		default:
+			trace = append(trace, fmt.Sprintf("syncer%d.Stop", j))
+			if err := o.b.Stop(); err != nil {
+				fail(fmt.Sprintf("syncer %d: Stop returned %v", j, err))
+				return
+			}
+		}
+		r.Count("side_by_side_ops", 1)
+	}
+	for j, o := range all {
+		if !o.created {
+			continue
+		}
+		_ = o.b.Sync()
+		if got := o.sink.All(); !bytes.Equal(got, o.want) {
+			fail(fmt.Sprintf("at the end (after Sync) the sink of syncer %d holds %d bytes, want its own %d accepted bytes; sink ends %q", j, len(got), len(o.want), tailB(got, 80)))
+			return
+		}
+	}
+}
+
 // ---- a tick that arrives while a write is in progress ------------------------------------------
 
 type gateSink struct {
@@ -884,6 +963,24 @@ func Run(r *ev.Run) {
 		}
 		if hung >= 3 {
 			break // each abandoned history leaks its goroutines; three are enough
+		}
+	}
+	for i, n := 0, r.N(400, 8000); i < n; i++ {
+		id := fmt.Sprintf("c12/side-by-side/%d", i)
+		if !r.Want(id) {
+			continue
+		}
+		r.Eval(1)
+		r.Distinct(fmt.Sprintf("side|%d", i))
+		h := mon.Watch(60*time.Second, func() { sideBySide(r, id, i) }, "BufferedWriteSyncer")
+		if h.Panicked != "" {
+			r.Violate(ev.Violation{Case: id, Class: "bws-panic", Msg: "panicked: " + h.Panicked})
+		} else if h.Dead {
+			r.Violate(ev.Violation{Case: id, Class: "bws-deadlock", Msg: "an operation on one of several syncers side by side never returned", Witness: h.Dump})
+			break
+		} else if h.Hung {
+			r.Inconclusive(id + ": exceeded the watchdog")
+			break
 		}
 	}
 	for i, n := 0, r.N(60, 1500); i < n; i++ {
